@@ -342,8 +342,182 @@ impl Check for IndexNameTranslation {
     }
 }
 
+
+// ---------------------------------------------------------------------------------------------
+// link_routing: the assembled execution layer (ExecutionBuilder -> MultiExchangeTxMap ->
+// ExecutionManager -> MockExecution -> MockExchange) routes by engine index
+// ---------------------------------------------------------------------------------------------
+
+#[derive(Debug, Clone, Serialize, Deserialize)]
+pub struct RoutingCase {
+    /// all-spot collection (the mock exchange documents no other kind)
+    pub defs: Vec<InstrumentDef>,
+    /// bit e set: pool exchange e gets a mock execution link; the others are data-only
+    pub mock_mask: u8,
+    /// (instrument selector, buy)
+    pub probes: Vec<(u16, bool)>,
+}
+
+pub struct LinkRouting;
+
+impl Check for LinkRouting {
+    type Case = RoutingCase;
+    const NAME: &'static str = "link_routing";
+
+    fn strategy(tier: Tier) -> BoxedStrategy<RoutingCase> {
+        let max = if tier == Tier::Quick { 6usize } else { 10usize };
+        (
+            (2u8..=4).prop_flat_map(move |n| prop::collection::vec((0..n, 0u8..5, 0u8..4), 2..=max)),
+            1u8..32,
+            prop::collection::vec((any::<u16>(), any::<bool>()), 1..6),
+        )
+            .prop_map(|(raw, mock_mask, probes)| RoutingCase {
+                defs: raw.into_iter().map(|(exchange, base, dq)| InstrumentDef { exchange, base, quote: (base + 1 + dq) % 5, kind: world::KindDef::Spot, unit: world::UnitDef::NoSpec }).collect(),
+                mock_mask,
+                probes,
+            })
+            .boxed()
+    }
+
+    fn eval(case: &RoutingCase) -> CaseReport {
+        use barter::{
+            engine::{clock::HistoricalClock, execution_tx::ExecutionTxMap},
+            execution::{AccountStreamEvent, builder::ExecutionBuilder, request::ExecutionRequest},
+        };
+        use barter_execution::{client::mock::MockExecutionConfig, order::request::{OrderRequestOpen, RequestOpen}};
+        use barter_integration::channel::Tx;
+        use std::time::Duration;
+
+        let mut rep = CaseReport::new();
+        macro_rules! bad {
+            ($sig:expr, $($fmt:tt)+) => {{ rep.fail($sig, format!($($fmt)+)); return rep; }};
+        }
+        let defs: Vec<InstrumentDef> = case.defs.iter().copied().map(|mut d| { d.kind = world::KindDef::Spot; d.unit = world::UnitDef::NoSpec; d }).collect();
+        if defs.is_empty() {
+            return rep;
+        }
+        let indexed = world::index(&defs);
+        let n_ex = indexed.exchanges().len();
+        let mocked: Vec<bool> = indexed.exchanges().iter().map(|e| {
+            let bit = world::EXCHANGES.iter().position(|x| *x == e.value).unwrap_or(0);
+            case.mock_mask & (1 << bit) != 0
+        }).collect();
+        let rt = tokio::runtime::Builder::new_current_thread().enable_time().start_paused(true).build().expect("runtime");
+        let outcome: Result<(u32, u32), (String, String)> = rt.block_on(async {
+            let mut builder = ExecutionBuilder::new(&indexed);
+            for (e, ex) in indexed.exchanges().iter().enumerate() {
+                if !mocked[e] {
+                    continue;
+                }
+                let balances = indexed.assets().iter().filter(|a| a.value.exchange == ex.value).map(|a| AssetBalance { asset: a.value.asset.name_exchange.clone(), balance: Balance::new(Decimal::from(1_000_000_000u64), Decimal::from(1_000_000_000u64)), time_exchange: ts(T0_MS) }).collect();
+                let config = MockExecutionConfig { mocked_exchange: ex.value, initial_state: UnindexedAccountSnapshot { exchange: ex.value, balances, instruments: vec![] }, latency_ms: 4, fees_percent: Decimal::ZERO };
+                builder = builder.add_mock(config, HistoricalClock::new(ts(T0_MS))).map_err(|e| ("add-mock-failed".to_string(), format!("{e}")))?;
+            }
+            let execution = builder.build().init().await.map_err(|e| ("execution-init-failed".to_string(), format!("{e}")))?;
+            let mut rx = execution.account_channel.rx;
+            // everything that arrives within `ms` virtual milliseconds
+            async fn drain(rx: &mut barter_integration::channel::UnboundedRx<AccountStreamEvent>, ms: u64) -> Vec<AccountStreamEvent> {
+                let mut out = Vec::new();
+                let end = tokio::time::Instant::now() + Duration::from_millis(ms);
+                while let Ok(Some(ev)) = tokio::time::timeout_at(end, rx.rx.recv()).await {
+                    out.push(ev);
+                }
+                out
+            }
+            // the initial account snapshot of every link carries that link's exchange index
+            let initial = drain(&mut rx, 50).await;
+            for (e, ex) in indexed.exchanges().iter().enumerate() {
+                let snaps: Vec<_> = initial.iter().filter_map(|ev| match ev {
+                    AccountStreamEvent::Item(AccountEvent { exchange, kind: AccountEventKind::Snapshot(s) }) if *exchange == ex.key => Some(s),
+                    _ => None,
+                }).collect();
+                if snaps.len() != usize::from(mocked[e]) {
+                    return Err(("initial-snapshot-count".to_string(), format!("{} initial account snapshots carry exchange index {e} ({}), its link is {}", snaps.len(), ex.value, if mocked[e] { "configured" } else { "absent" })));
+                }
+                for s in snaps {
+                    let mut got: Vec<usize> = s.balances.iter().map(|b| b.asset.index()).collect();
+                    let mut want: Vec<usize> = indexed.assets().iter().filter(|a| a.value.exchange == ex.value).map(|a| a.key.index()).collect();
+                    got.sort();
+                    want.sort();
+                    if got != want || s.exchange != ex.key {
+                        return Err(("initial-snapshot-assets".to_string(), format!("initial snapshot of exchange {e} ({}) lists asset indices {got:?}, that exchange's assets are {want:?}", ex.value)));
+                    }
+                }
+            }
+            let (mut routed, mut absent) = (0u32, 0u32);
+            for (n, (sel, buy)) in case.probes.iter().enumerate() {
+                let inst = &indexed.instruments()[(*sel as usize * indexed.instruments().len()) >> 16];
+                let e = inst.value.exchange.key;
+                let found = execution.execution_txs.find(&e);
+                if !mocked[e.index()] {
+                    absent += 1;
+                    if found.is_ok() {
+                        return Err(("link-for-data-only-exchange".to_string(), format!("exchange index {} ({}) has no execution link, yet the link table resolves it", e.index(), inst.value.exchange.value)));
+                    }
+                    continue;
+                }
+                let Ok(tx) = found else {
+                    return Err(("link-missing".to_string(), format!("exchange index {} ({}) has a mock link, the link table does not resolve it", e.index(), inst.value.exchange.value)));
+                };
+                let key = OrderKey { exchange: e, instrument: inst.key, strategy: StrategyId::new("s"), cid: ClientOrderId::new(format!("p{n}")) };
+                let request = OrderRequestOpen { key: key.clone(), state: RequestOpen { side: if *buy { Side::Buy } else { Side::Sell }, price: Decimal::from(10), quantity: Decimal::ONE, kind: OrderKind::Market, time_in_force: TimeInForce::ImmediateOrCancel } };
+                if tx.send(ExecutionRequest::Open(request)).is_err() {
+                    return Err(("link-closed".to_string(), format!("the execution link of exchange index {} does not accept requests", e.index())));
+                }
+                // response, or the manager's 1 s timeout, plus notifications
+                let events = drain(&mut rx, 1200).await;
+                routed += 1;
+                let mut answered = 0;
+                for ev in &events {
+                    let AccountStreamEvent::Item(a) = ev else { continue };
+                    if a.exchange != e {
+                        return Err(("event-from-other-exchange".to_string(), format!("probe {n} for instrument {} on exchange index {}: event {a:?} carries exchange index {}", inst.key.index(), e.index(), a.exchange.index())));
+                    }
+                    match &a.kind {
+                        AccountEventKind::OrderSnapshot(s) => {
+                            answered += 1;
+                            if s.0.key != key {
+                                return Err(("response-key".to_string(), format!("probe {n}: response key {:?}, request key {key:?}", s.0.key)));
+                            }
+                            if !matches!(s.0.state, OrderState::Active(_)) && !matches!(s.0.state, OrderState::Inactive(barter_execution::order::state::InactiveOrderState::FullyFilled)) {
+                                return Err(("request-not-executed".to_string(), format!("probe {n} (market order, ample balances) for instrument {} via the link of exchange index {}: {:?}", inst.key.index(), e.index(), s.0.state)));
+                            }
+                        }
+                        AccountEventKind::Trade(t) if t.instrument != inst.key => {
+                            return Err(("fill-for-other-instrument".to_string(), format!("probe {n} for instrument {}: fill reported for instrument {}", inst.key.index(), t.instrument.index())));
+                        }
+                        AccountEventKind::BalanceSnapshot(b) => {
+                            let spent = if *buy { inst.value.underlying.quote } else { inst.value.underlying.base };
+                            if b.0.asset != spent {
+                                return Err(("balance-for-other-asset".to_string(), format!("probe {n} for instrument {} ({}): balance update for asset index {}, the spent asset is {}", inst.key.index(), if *buy { "buy" } else { "sell" }, b.0.asset.index(), spent.index())));
+                            }
+                        }
+                        _ => {}
+                    }
+                }
+                if answered != 1 {
+                    return Err(("request-unanswered".to_string(), format!("probe {n} for instrument {} sent through the link of exchange index {} ({}): {answered} order responses within 1.2 s (events {events:?})", inst.key.index(), e.index(), inst.value.exchange.value)));
+                }
+            }
+            Ok((routed, absent))
+        });
+        match outcome {
+            Ok((routed, absent)) => {
+                let first_mocked = mocked.iter().position(|m| *m);
+                rep.class_if(routed > 0, "request_routed_through_link");
+                rep.class_if(absent > 0, "probe_for_data_only_exchange");
+                rep.class_if(n_ex >= 2 && mocked.iter().any(|m| !*m) && mocked.iter().any(|m| *m), "mixed_traded_and_data_only_exchanges");
+                rep.class_if(first_mocked.is_some_and(|f| f > 0), "data_only_exchange_before_traded_one");
+                rep.nontrivial = routed > 0 && first_mocked.is_some_and(|f| f > 0);
+            }
+            Err((sig, msg)) => bad!(format!("routing:{sig}"), "{msg}"),
+        }
+        rep
+    }
+}
+
 pub fn run(ctx: &mut Ctx) {
-    ctx.rule = "index_name_translation: 1..9|14 instrument definitions over 1..4 exchanges (exchange instrument names such as BTCUSDT and asset names deliberately shared between exchanges); for EVERY exchange's map and EVERY global instrument/asset index (own and foreign): index->name, name->index, outbound request translation, inbound translation of order snapshot / rejected order / cancel response / trade / full snapshot / balance, and application to EngineState. non-trivial = >= 2 exchanges and a probed own index lies on an exchange whose first global index is > 0 (global index != per-exchange position); distinct by hash of the case.".into();
+    ctx.rule = "index_name_translation: 1..9|14 instrument definitions over 1..4 exchanges (exchange instrument names such as BTCUSDT and asset names deliberately shared between exchanges); for EVERY exchange's map and EVERY global instrument/asset index (own and foreign): index->name, name->index, outbound request translation, inbound translation of order snapshot / rejected order / cancel response / trade / full snapshot / balance, and application to EngineState. non-trivial = >= 2 exchanges and a probed own index lies on an exchange whose first global index is > 0 (global index != per-exchange position); distinct by hash of the case. link_routing: 2..6|10 spot instruments over 2..4 exchanges, a generated subset of the exchanges gets a mock execution link (the rest are data-only); the layer is assembled with ExecutionBuilder and initialised on a paused runtime; every initial account snapshot must carry its own exchange index and asset indices; 1..5 market orders are sent through execution_txs.find(exchange index of the instrument) and the response, fill and balance events must come back with that exchange index / instrument index / spent asset index; a data-only exchange index must not resolve. non-trivial = a request routed while a data-only exchange precedes the traded one in index order.".into();
     ctx.assumptions = vec![
         "exchange-side instrument and asset names are unique inside one exchange".into(),
         "unique internal instrument names; one exchange name per (exchange, internal asset name)".into(),
@@ -351,8 +525,11 @@ pub fn run(ctx: &mut Ctx) {
     ctx.require_class::<IndexNameTranslation>("probed_index_on_exchange_not_starting_at_zero");
     ctx.run_regressions::<IndexNameTranslation>();
     ctx.run::<IndexNameTranslation>(ctx.tier.pick(60_000, 800_000));
+    ctx.require_class::<LinkRouting>("data_only_exchange_before_traded_one");
+    ctx.run_regressions::<LinkRouting>();
+    ctx.run::<LinkRouting>(ctx.tier.pick(8_000, 120_000));
 }
 
 pub fn replay(ctx: &mut Ctx, doc: &Value) -> bool {
-    ctx.replay::<IndexNameTranslation>(doc)
+    ctx.replay::<IndexNameTranslation>(doc) || ctx.replay::<LinkRouting>(doc)
 }
